@@ -8,14 +8,32 @@ package table
 //@ define sortedE(s) = all(i, 0, len(s), all(j, i+1, len(s), cmp(s[i].Key, s[j].Key) < 0))
 //
 // C10: the block search returns the first entry that is >= key, or false when every entry is < key.
+//@ ghost LbIdx Int
 //@ func (*table.Data).LowerBound -> e, ok
 //@ props C10 C01
 //@ requires wf(key) && wfE(d.Entries) && sortedE(d.Entries)
-//@ ensures ok ==> ex(i, 0, len(d.Entries), d.Entries[i] == e && cmp(d.Entries[i].Key, key) >= 0 && all(j, 0, i, cmp(d.Entries[j].Key, key) < 0))
+//@ assigns LbIdx
+//@ ensures ok ==> (0 <= LbIdx && LbIdx < len(d.Entries) && d.Entries[LbIdx] == e && cmp(e.Key, key) >= 0 && all(j, 0, LbIdx, cmp(d.Entries[j].Key, key) < 0))
+//@ at_exit exit: ghost LbIdx = ite(ok, mid, LbIdx)
 //@ ensures !ok ==> all(i, 0, len(d.Entries), cmp(d.Entries[i].Key, key) < 0)
 //@ loop 0:
 //@   invariant 0 <= low && high < len(d.Entries) && low <= high+1
 //@   invariant all(i, 0, low, cmp(d.Entries[i].Key, key) < 0)
 //@   invariant all(i, high+1, len(d.Entries), cmp(d.Entries[i].Key, key) >= 0)
 //@   invariant high == len(d.Entries)-1 || (high >= 0 && cmp(d.Entries[high].Key, key) >= 0)
+//@   decreases high - low + 1
+//
+// C10: the index step returns the first data block whose EndKey is >= key (the block that holds the
+// first entry of the table that is >= key), or false when every block ends before key.
+//@ define idxEndSorted(ix) = all(a, 0, len(ix.Entries), wf(ix.Entries[a].EndKey)) && forall(Int(a), Int(b), (0 <= a && a < b && b < len(ix.Entries)) ==> cmp(ix.Entries[a].EndKey, ix.Entries[b].EndKey) < 0)
+//@ func (*table.Index).SearchLowerBound -> h, ok
+//@ props C10 C01
+//@ requires wf(key) && idxEndSorted(i)
+//@ ensures ok ==> ex(j, 0, len(i.Entries), i.Entries[j].DataHandle == h && cmp(i.Entries[j].EndKey, key) >= 0 && all(a, 0, j, cmp(i.Entries[a].EndKey, key) < 0))
+//@ ensures !ok ==> all(a, 0, len(i.Entries), cmp(i.Entries[a].EndKey, key) < 0)
+//@ loop 0:
+//@   invariant 0 <= low && high < len(i.Entries) && low <= high+1
+//@   invariant all(a, 0, low, cmp(i.Entries[a].EndKey, key) < 0)
+//@   invariant all(a, high+1, len(i.Entries), cmp(i.Entries[a].EndKey, key) >= 0)
+//@   invariant high == len(i.Entries)-1 || (high >= 0 && cmp(i.Entries[high].EndKey, key) >= 0)
 //@   decreases high - low + 1
